@@ -21,7 +21,7 @@ from . import common as C
 
 PID = "C15"
 META = {
-    "ready": False,
+    "ready": True,
     "category": "proof",
     "technique": "Lean 4 invariant proof over a step-level transition system of the safepoint handshake (any number of threads, all interleavings) + forced interleavings of real threads through cfg(steel_verif) yield points + multi-threaded programs with delay injection and an in-core `being scanned` detector",
     "level_text": "Theorems (lean/SteelVerif/C15/Props.lean; model = C15/Model.lean: N script threads and stopper roles as one transition system, every access to a thread's pause flag, state, published pointer, park token, the threads mutex and the heap mutex one atomic step; stop_threads, enumerate_stacks / call_per_ctx, resume_threads, with_locked_env, enter_safepoint, the dispatch poll, spawn-before-registration and host interrupts modelled as the code has them): scan_exclusive_partial_code - for every number of threads and EVERY interleaving that respects the decidable guard G (rounds do not overlap a spawn or a host interrupt; no stop request reaches a thread between its last exit check and its retraction), a thread whose stack / global table is being inspected or replaced is parked at a safepoint or inside a primitive that published it; env_coherent_partial_code / env_published_partial - when no round is in progress every live thread holds the newest global table. The FULL statements are false for the code as it is, proved from concrete schedules: not_scan_exclusive_code (safepoint exit race, 21 steps, N = 2: finding K15a) and not_env_coherent_code (a thread spawned during a round keeps the old table: K15b). NOT a theorem: that the Rust code follows the model. That is the correspondence run: the interleavings of the witnesses and of generated variants are FORCED on real threads through yield-point hooks (the exit race reproduces deterministically: the dispatch loop records that it runs while its thread is being scanned; with the JIT the thread indexes the swapped, empty table and the process aborts), and generated multi-threaded programs run with delay injection under the in-core detector.",
@@ -190,13 +190,19 @@ def run_program(name, expected, prog, jit, bound, jitter):
     return kv
 
 
+def empty_table_symptom(kv):
+    """A thread looked a global up in the empty table installed by another thread's with_locked_env: native code indexes it
+    (panic `index out of bounds: the len is 0`), the interpreter reports a defined global as a free identifier."""
+    return bool(ABORT_K15A.search(kv["stderr"])) or "free_identifier" in kv.get("outcome", "")
+
+
 def judge_program(ctx, name, exp, prog, classes, jit, jitter, kv, known, stats):
     stats["prog_runs"] += 1
     scanviol = int(kv.get("scanviol", "0") or 0)
-    if kv.get("ok") == "1" and scanviol == 0 and not ABORT_K15A.search(kv["stderr"]):
+    if kv.get("ok") == "1" and scanviol == 0 and not empty_table_symptom(kv):
         stats["prog_ok"] += 1
         return
-    if (scanviol > 0 or ABORT_K15A.search(kv["stderr"])) and "K15a" in known and "K15a" in classes:
+    if (scanviol > 0 or empty_table_symptom(kv)) and "K15a" in known and "K15a" in classes:
         stats["k15a_prog"] += 1
         kf(ctx, "K15a", "id=K15a class=stop_request_while_thread_leaves_safepoint replay=%s (program %s, jit=%s, jitter=%s: %s)"
            % (known["K15a"]["replay"], name, jit, jitter,
@@ -296,7 +302,7 @@ def run(ctx):
     for (n, e, p, cl, jit, jitter), kv in res:
         judge_program(ctx, n, e, p, cl, jit, jitter, kv, known, stats)
     # witnesses of the open findings that were not met above
-    for kid, pred in (("K15a", lambda kv: bool(ABORT_K15A.search(kv["stderr"])) or int(kv.get("scanviol", "0") or 0) > 0),
+    for kid, pred in (("K15a", lambda kv: empty_table_symptom(kv) or int(kv.get("scanviol", "0") or 0) > 0),
                       ("K15b", lambda kv: kv.get("outcome") == "finished" and kv.get("ok") == "0")):
         if kid in known and kid not in _SEEN:
             r = replay_case_file(os.path.join(C.VERIF, known[kid]["replay"]), repeat=12 if ctx.quick() else 40)
